@@ -86,6 +86,9 @@ MODELS = [
     ("cubic3q", "spin", "PUSOMatrix", {(0, 1, 2): 1, (0, 1): -1}, False),
     ("pubo3", "bool", "PUBO", {(0, 1, 2): 2, (1,): -1}, False),
     ("gap3", "spin", "QUSOMatrix", {(0, 2): -1, (2,): 1}, True),          # isolated variable 1 (label gap)
+    # a quadratic Matrix model handed to the POLYNOMIAL kernel's front end, terms inserted with label 1 and 2 first
+    # (in-order visiting is label order for integer-labelled Matrix models, whichever front end is used)
+    ("chain3-via-puso", "spin", "QUSOMatrix", {(1, 2): -1, (0, 1): 1, (2,): 0.5}, False),
 ]
 
 
